@@ -4,7 +4,8 @@ From Coq Require Import ZArith List Bool.
 From Centro Require Import Base.Sx Base.EmdBase Spec.Emd Model.Emd Model.EmdCert
   Proofs.EmdDuality Proofs.EmdScaled Proofs.EmdModel Proofs.EmdSsp Proofs.EmdCertModel Proofs.EmdMetric
   Proofs.EmdFuel Proofs.EmdHeap Proofs.EmdTransform Proofs.EmdHeapPos Proofs.EmdHeapOrd Proofs.EmdPotential
-  Proofs.EmdMcfCert Proofs.EmdHeapMem Proofs.EmdDijkstra Proofs.EmdDijkstraInit.
+  Proofs.EmdMcfCert Proofs.EmdHeapMem Proofs.EmdDijkstra Proofs.EmdDijkstraInit
+  Proofs.EmdTight Proofs.EmdGhost Proofs.EmdCspPost.
 From Centro Require Import Model.EmdMcf.
 Import ListNotations.
 Open Scope Z_scope.
@@ -309,3 +310,65 @@ Theorem C10_dijkstra_invariant : forall nv e rf rb,
   forall fuel st st' l, J nv rf rb st -> dijkstra fuel e rf rb st = Some (st', l) -> Post nv rf rb st' l.
 Proof. exact dijkstra_inv. Qed.
 Print Assumptions C10_dijkstra_invariant.
+
+(* ------------------------------------------------------------------------------------------------
+   Round 6.  Piece 1 of augment_keeps_residual_nonneg — Full: the arcs the augmenting path walks
+   (v -> prev[v]) are TIGHT.  Every finalised node is either untouched (the start node with label 0,
+   or a label still at the initial max) or was reached through a residual arc from its finalised
+   prev with  d[v] = d[prev v] + reduced cost. *)
+Theorem C10_dijkstra_prev_tight : forall nv e rf rb,
+  (forall u v rc, res_arc rf rb u v rc -> (v < nv)%nat /\ 0 <= rc) ->
+  forall from d prev st l, (from < nv)%nat -> length d = nv -> length prev = nv ->
+  dijkstra (S nv) e rf rb {| sp_h := heap_init nv from; sp_d := d; sp_prev := prev; sp_final := repeat false nv |}
+    = Some (st, l) ->
+  TPost rf rb from st.
+Proof. exact dijkstra_prev_tight. Qed.
+Print Assumptions C10_dijkstra_prev_tight.
+
+(* Piece 2, mcf_reduced_cost_ghost_invariant — Full: along the whole run of the line-level solver
+   there are node potentials pi (a ghost, never stored by the code) such that the forward entry of
+   every arc u->v is  c + pi(u) - pi(v)  and its backward entry is  -c + pi(v) - pi(u):  the two
+   entries of one arc carry opposite reduced costs.  (pi = 0 at the start, shifted by every
+   compute_shortest_path, untouched by augment.) *)
+Theorem C10_mcf_reduced_cost_ghost_invariant : forall nv c, length c = nv ->
+  forall e k, length e = nv ->
+  match mcf_iter k (mcf_init e c) with
+  | MDone st' | MMore st' => ghost_st nv c st'
+  | MFail => True
+  end.
+Proof. exact mcf_reduced_cost_ghost_invariant. Qed.
+Print Assumptions C10_mcf_reduced_cost_ghost_invariant.
+
+(* The interface of one compute_shortest_path call towards the augmentation, on returned values. *)
+Theorem C10_csp_post : forall nv e rf rb,
+  (forall u v rc, res_arc rf rb u v rc -> (v < nv)%nat /\ 0 <= rc) ->
+  forall d prev from dd' prev' rf' rb' l,
+  (from < nv)%nat -> length d = nv -> length prev = nv ->
+  compute_shortest_path nv d prev from rf rb e = Some (dd', prev', rf', rb', l) ->
+  exists st,
+    sp_d st = dd' /\ sp_prev st = prev' /\
+    Post nv rf rb st l /\ TPost rf rb from st /\
+    rf' = map (fun fx => map (fun en => (fst en, rc_update (sp_final st) dd' (nz dd' l) (fst fx) (fst en) (snd en))) (snd fx))
+              (combine (seq 0 nv) rf) /\
+    rb' = map (fun fx => map (fun en => (fst (fst en), rc_update (sp_final st) dd' (nz dd' l) (fst fx) (fst (fst en)) (snd (fst en)), snd en)) (snd fx))
+              (combine (seq 0 nv) rb).
+Proof. exact csp_post. Qed.
+Print Assumptions C10_csp_post.
+
+(* C10_ssp_reduced_costs_nonneg, both halves — still PARTIAL.  Proved: the shortest-path half
+   (C10_csp_residual_nonneg), pieces 1 and 2 above, and that a tight arc and its reverse get reduced
+   cost 0 (csp_tight_arc_zero).  MISSING: piece 3, augment_list_surgery — scan_delta / augment
+   address capacities by (node, node) pairs (first entry of r_cost_cap_backward[to] pointing at from,
+   and of [from] pointing at to), so they are only right when the path never uses an arc that has a
+   parallel or an ANTI-PARALLEL companion; in the graphs of emd_hat_impl.hpp such companions exist
+   exactly at the artificial node, hence the statement needs lemma artificial_node_unused (no
+   shortest path to a deficit node passes the artificial node, by the cost argument maxC+1 > maxC).
+   Consequently C10_mcf_model_optimal, "Fail unreachable", read_back_bookkeeping and C10_model_total
+   remain open; C10_model_emd_correct keeps the in-model certificate. *)
+Theorem C10_ssp_reduced_costs_nonneg_partial : forall rf rb from st l v,
+  TPost rf rb from st -> fn st v = true -> ~ untouched from v (dd st v) ->
+  exists rc, res_arc rf rb (pvn st v) v rc /\ fn st (pvn st v) = true /\
+             rc_update (sp_final st) (sp_d st) (nz (sp_d st) l) (pvn st v) v rc = 0 /\
+             rc_update (sp_final st) (sp_d st) (nz (sp_d st) l) v (pvn st v) (- rc) = 0.
+Proof. exact csp_tight_arc_zero. Qed.
+Print Assumptions C10_ssp_reduced_costs_nonneg_partial.
